@@ -527,7 +527,7 @@ def call_values(I, c, args, e=None, env=None):
         return Opt(True, args[0])
 
     # ---- SquareMatrix storage abstraction
-    if "SquareMatrix" in iself and name in ("new_zeros", "new_zeros_from_num"):
+    if "SquareMatrix" in iself and name in ("new_zeros", "new_zeros_from_num") and not getattr(I, "no_storage_model", False):
         dim = as_num(args[1])
         cls = dim.size
         if cls is None:
